@@ -396,36 +396,55 @@ def _const_test(e: ast.AST, consts: Dict[str, Any]) -> Optional[bool]:
     return None
 
 
-def feasible(path: Path) -> bool:
+def _step_info(cfg: Any, nid: int, lab: Any) -> Tuple[Any, ...]:
+    """memoised per (node, label): (atom key, polarity, pure?, chains, defs, killed, kills_everything)"""
+    memo = cfg.__dict__.setdefault('_fmemo', {})
+    k = (nid, lab)
+    if k in memo:
+        return memo[k]
     from .cfg import atom_key
+    node = cfg.nodes[nid]
+    key = pol = None
+    pure = False
+    chains: List[str] = []
+    if node.kind == 'test' and lab in (True, False):
+        key, pol = atom_key(node.ast, lab)
+        pure = _atom_pure(node.ast)
+        chains = _chains_in(node.ast)
+    defs = defs_of_step(node, lab)
+    killed, everything = _kills(node, lab)
+    memo[k] = (key, pol, pure, chains, defs, killed, everything)
+    return memo[k]
+
+
+def feasible(path: Path) -> bool:
     known: Dict[str, Tuple[bool, List[str]]] = {}
     consts: Dict[str, Any] = {}
+    cfg = path.cfg
     for nid, lab in path.steps:
-        node = path.cfg.nodes[nid]
-        if node.kind == 'test' and lab in (True, False):
-            cv = _const_test(node.ast, consts)  # type: ignore[arg-type]
-            if cv is not None and cv != lab:
-                return False
-            key, pol = atom_key(node.ast, lab)  # type: ignore[arg-type]
-            if _atom_pure(node.ast):  # type: ignore[arg-type]
+        key, pol, pure, chains, defs, killed, everything = _step_info(cfg, nid, lab)
+        if key is not None:
+            if consts:
+                cv = _const_test(cfg.nodes[nid].ast, consts)
+                if cv is not None and cv != lab:
+                    return False
+            if pure:
                 if key in known and known[key][0] != pol:
                     return False
-                known[key] = (pol, _chains_in(node.ast))  # type: ignore[arg-type]
-        # constant propagation for locals
-        for name, val in defs_of_step(node, lab).items():
+                known[key] = (pol, chains)
+        for name, val in defs.items():
             if isinstance(val, ast.Constant):
                 consts[name] = val.value
             else:
                 consts.pop(name, None)
-        killed, everything = _kills(node, lab)
         if everything:
             known.clear()
             continue
-        if killed:
+        if killed and known:
             for k in list(known):
-                chains = known[k][1]
+                kchains = known[k][1]
                 for kc in killed:
-                    if any(c == kc or c.startswith(kc + '.') or kc.startswith(c + '.') for c in chains):
+                    if any(c == kc or c.startswith(kc + '.') or kc.startswith(c + '.') for c in kchains):
                         del known[k]
                         break
     return True
